@@ -597,6 +597,11 @@ class Executor:
             return Sym(z3.BitVecVal(ord(s), 32), "char")
         if t == "()":
             return UNIT
+        m = re.fullmatch(r"(?:core::num::|std::)?(?:<impl )?(u8|u16|u32|u64|usize|i8|i16|i32|i64|isize)>?::(MAX|MIN)", t)
+        if m:
+            bits, sg = INT_BITS[m.group(1)], m.group(1) in SIGNED
+            val = (2 ** (bits - 1) - 1 if sg else 2 ** bits - 1) if m.group(2) == "MAX" else (-(2 ** (bits - 1)) if sg else 0)
+            return Sym(z3.BitVecVal(val, bits), m.group(1))
         if t.startswith("ZeroSized: "):
             nm = t[len("ZeroSized: "):]
             if nm.startswith("{closure@"):
@@ -1049,13 +1054,14 @@ class Executor:
                 return None
             # 4 havoc
             res = self.havoc(st, callee, args, dty)
-        if isinstance(res, tuple) and res and res[0] == "inline":
-            # a hook redirects the call to another MIR body (e.g. log!() -> the registered logger closure)
-            _, fn2, args2 = res
-            nf = Frame(fn2, next(self.fid_counter), dest=None, ret_bb=ret_bb)
+        if isinstance(res, tuple) and res and res[0] in ("inline", "inline-discard"):
+            # a hook redirects the call to another MIR body (e.g. log!() -> the registered logger closure, Into::into -> From::from)
+            kind_, fn2, args2 = res
+            keep = kind_ == "inline"
+            nf = Frame(fn2, next(self.fid_counter), dest=dest if keep else None, ret_bb=ret_bb)
             for (p, _), v in zip(fn2.params, args2):
                 st.store[(nf.fid, p)] = v
-            if dest is not None:
+            if dest is not None and not keep:
                 self.write_place(st, fr, dest, UNIT)
             st.stack.append(nf)
             if self.report is not None:
